@@ -92,3 +92,29 @@ claim("C20", "compiler BCE log (compile only) as the oracle of remaining bounds 
       "Decides the crash-freedom and termination clauses structurally: every index/slice operation of cfgparser and lexer that the compiler could not prove in bounds is discharged by a guard that dominates it; no explicit panic / single-value assertion / nil-map write / variable division in the cone of Read; every recursion cycle contains a structurally descending or depth-guarded call; every non-range loop consumes input (one named exception with a checked side-condition); macro/snippet declarations never reach the result, names are validated, imports are re-expanded after a splice; every consumed line feed is counted. The print/parse round trip, the shipped configuration files and the size of import expansion are not decided.",
       "trusts go/types, go/cfg and the compiler's prove/BCE pass (an operation absent from its log cannot fail)", "DESIGN.md §3 C20")
 PENDING.pop("C20", None)
+
+# ---- additions of the second round (DESIGN.md §R.6 / §R.7): appended to the texts above
+def _add(id, tech_extra, text_extra):
+    tech, text, note, ref = CLAIMED[id]
+    CLAIMED[id] = (tech + "; " + tech_extra, text + " Added in round 2: " + text_extra, note, ref + ", §R.6")
+
+_add("C02", "commit-record writer rules", "every writer of the commit record goes through the temp→sync→rename routine; the per-recipient record maps are written where the spool forgets a recipient.")
+_add("C03", "mechanised library assumption (go-smtp source is loaded with syntax), per-target failure marking", "assumption A1 is re-derived from the library source on every run (a replaced session must be logged out – compensated in NewSession); on the per-recipient (LMTP) path a target that did not accept the body is marked and Commit aborts it; a failure of one target is reported for exactly its recipients.")
+_add("C04", "alias rule for rewritten recipients", "rewritten recipients never alias the rule tables.")
+_add("C06", "monotonicity rules", "the registry of recipient blocks is never shrunk during a transaction; quarantine is monotone; verdict guards are classified by model worlds (Reject / Quarantine) instead of syntax.")
+_add("C07", "value-world evaluation of the action dispatch (policy == v for every published constant)", "the action per policy value is decided on the flow graph whatever the dispatch form; with DMARC enabled the verdict is obtained on every path.")
+_add("C09", "status-all events through helpers/closures, per-target reporting", "fresh translating collector per call, raw key forwarded only on a table miss; the per-connection fan-out covers every accepted recipient.")
+_add("C10", "deep-copy and same-object rules", "stored metadata is a deep copy; the synced files are the files that were written.")
+_add("C11", "eviction rule", "a table value is not used after a pass that may evict it; roll-back helpers are followed.")
+_add("C12", "Close/Add interference and semaphore pairing rules", "Close invalidates nothing a concurrent Add still uses; the attempt goroutine acquires the semaphore before registering its release (also when written as a method).")
+_add("C13", "model-world enumeration of record classification (usage × selector × matching type), discovery-cone error rule, value identity of the lookup future", "the usage-2/usage-3 lists receive exactly their usable records and nothing out of range, nothing usable is dropped (decided for any loop/branch form); a resolver error other than not-found ends the discovery with that error; the TLSA future completed by the lookup goroutine is a local of the very PrepareConn call and the only future ever installed.")
+_add("C14", "nil-origin classification of every return (SuccessOnlyFrom)", "SASLAuth.AuthPlain returns nil only as the nil result of a configured provider.")
+_add("C15", "accept-only-over-positive-answer rule", "authzSender accepts only over the (true, nil) answer of the entitlement lookup; refusals built by helpers are followed.")
+_add("C16", "field cells in the path evaluator; mask-dominates-reply rule", "an in-place rewrite of one half of a code pair after a copy was taken is seen; without SMTPUTF8 every reply leaves wrapErr through the mask applied to the final text; helper parameters are judged with the constants their callers pass.")
+_add("C17", "whole-program ASCII boundary rule", "every comparison of a character with 127/128 in the server is evaluated at the boundary.")
+_add("C18", "reaching-definition worlds for the reported address; alias-record and format-flag rules", "the reported address is decided by reaching definitions in the worlds 'map has an entry' / 'has none' (any loop form, builder helpers followed); the pipeline records (rewritten ↦ original) exactly when the two differ, keyed by the variable handed to the target; the report's format flag is the flag it is submitted with.")
+_add("C19", "drain completeness and close⇒drain rules, interprocedural lockset", "a drain loop is never left early; every close of a bucket channel is followed on all paths by a drain of that channel; helpers inherit the locks all their callers hold.")
+_add("C20", "nesting-counter discipline, character-classification rule, caller-established index preconditions", "an invocation that gave its nesting level back reads no further node (the bound cannot be bypassed); unicode predicates are applied to decoded characters; an index on a parameter of an unexported helper is proved at every call site.")
+for _id in list(CLAIMED):
+    tech, text, note, ref = CLAIMED[_id]
+    CLAIMED[_id] = (tech, text, note + "; rules are form-agnostic (named booleans, if/switch, loop forms, extracted helpers, renamed unexported functions and fields – DESIGN.md §R.7) and measured against a corpus of 21 behaviour-preserving refactorings (refactorings/, refacall.sh)", ref)
